@@ -2,6 +2,7 @@ import GixModel.Lemmas.C29
 import GixModel.Lemmas.C29Total
 import GixModel.Lemmas.C29Writer
 import GixModel.Lemmas.C29Intr
+import GixModel.Lemmas.C29Lines
 /-
 C29 — Packet-line framing is exact and never panics.  PROPERTY THEOREMS ONLY.
 
@@ -423,5 +424,70 @@ example :
     let m := Msg.error [98]
     (∀ x ∈ before ++ m :: [Msg.data [3]], x.Valid consts) ∧ m.isData = false ∧
       dataOf before = [1, 2] ∧ (progressOf before).length = 1 := by decide
+
+/-! ### round 3: `peek_data_line`, `read_data_line`, `read_line_to_string` -/
+
+/-- Panic-freedom including the line-wise calls, on ANY stream: no sequence of `fill_buf`,
+`consume`, `read`, `peek_data_line`, `read_data_line`, `read_line_to_string` panics provided every
+call respects its contract at the state it is made in (`LegalRun`): `consume` amounts as before,
+and `read_data_line` / `read_line_to_string` only while nothing is buffered (`cap == 0` — the
+`assert_eq!` in both; it fails after `fill_buf`/`read` positioned the reader inside a line, and
+after a `read_line_to_string` that failed on invalid UTF-8). -/
+theorem sideband_linewise_never_panics (c : Consts) (hc : ConstsOk c) (cs : List Bytes)
+    (hne : NonEmptyChunks cs) (delims : List Line) (failOnErr : Bool) (before : List Call)
+    (handler : Bool) (intr : Option Nat) (calls : List SBCall)
+    (hl : LegalRun c calls ⟨(runCalls c before (Reader.new c cs delims failOnErr)).2, handler, 0, 0, [], intr⟩) :
+    ∀ x ∈ (runSB c calls
+        ⟨(runCalls c before (Reader.new c cs delims failOnErr)).2, handler, 0, 0, [], intr⟩).1,
+      x ≠ SBObs.panic :=
+  (runSB_total_at c hc calls _
+    (SB.new_ok c _ (runCalls_inv2 c hc before _ (Reader.new_inv2 c cs hne delims failOnErr)) handler intr) hl).1
+
+/-- the contract is needed: `read_data_line()` right after a `fill_buf()` trips the assertion
+(replayed against the real code by the harness: `sbc 0 F 3 f,l d.6162+F`) -/
+theorem read_data_line_after_fill_panics :
+    (runSB consts [.fill, .readData]
+      ⟨Reader.new consts [[48, 48, 48, 54, 97, 98]] [] false, false, 0, 0, [], none⟩).1
+      = [.bytes [97, 98], .panic] := by decide +kernel
+
+/-- `read_data_line()` returns a written line unchanged and leaves the reader right behind it;
+`peek_data_line()` shows the next data line without consuming it (the following
+`read_data_line()` returns the same line, only then is the stream advanced). For every chunking. -/
+theorem read_data_line_roundtrip (c : Consts) (hc : ConstsOk c) (l : Line) (delims : List Line)
+    (failOnErr : Bool) (hp : Plain c delims failOnErr l) (rest : Bytes) (cs : List Bytes)
+    (hne : NonEmptyChunks cs) (hflat : cs.flatten = wire c l ++ rest) (handler : Bool) (intr : Option Nat) :
+    let s0 : SB := ⟨Reader.new c cs delims failOnErr, handler, 0, 0, [], intr⟩
+    (sbReadDataLine c s0).1 = .line l ∧ (sbReadDataLine c s0).2.r.src.flatten = rest :=
+  let h := sbReadDataLine_wire c hc ⟨Reader.new c cs delims failOnErr, handler, 0, 0, [], intr⟩ l hp rest rfl
+    ⟨rfl, rfl, hne⟩ hflat
+  ⟨h.1, h.2.1⟩
+
+theorem peek_data_line_roundtrip (c : Consts) (hc : ConstsOk c) (d : Bytes) (delims : List Line)
+    (failOnErr : Bool) (hp : Plain c delims failOnErr (.data d)) (rest : Bytes) (cs : List Bytes)
+    (hne : NonEmptyChunks cs) (hflat : cs.flatten = wire c (.data d) ++ rest) (handler : Bool)
+    (intr : Option Nat) :
+    let s0 : SB := ⟨Reader.new c cs delims failOnErr, handler, 0, 0, [], intr⟩
+    (sbPeekDataLine c s0).1 = .line (.data d) ∧
+    (sbReadDataLine c (sbPeekDataLine c s0).2).1 = .line (.data d) ∧
+    (sbReadDataLine c (sbPeekDataLine c s0).2).2.r.src.flatten = rest :=
+  let h := sbPeek_then_read c hc ⟨Reader.new c cs delims failOnErr, handler, 0, 0, [], intr⟩ d hp rest rfl
+    ⟨rfl, rfl, hne⟩ hflat
+  ⟨h.1, h.2.1, h.2.2.1⟩
+
+/-- `read_line_to_string()` (no side-bands) on a written data line whose payload is valid UTF-8
+— e.g. what `text_to_write` wrote — yields exactly that payload as the string, leaves nothing
+buffered (so the next line-wise call is legal) and the reader right behind the line. -/
+theorem read_line_to_string_roundtrip (c : Consts) (hc : ConstsOk c) (d : Bytes) (delims : List Line)
+    (failOnErr : Bool) (hp : Plain c delims failOnErr (.data d)) (hutf : validUtf8 d = true) (rest : Bytes)
+    (cs : List Bytes) (hne : NonEmptyChunks cs) (hflat : cs.flatten = wire c (.data d) ++ rest) :
+    let s0 : SB := ⟨Reader.new c cs delims failOnErr, false, 0, 0, [], none⟩
+    (sbReadLineToString c s0).1 = .ok d ∧ (sbReadLineToString c s0).2.cap = 0 ∧
+      (sbReadLineToString c s0).2.r.src.flatten = rest :=
+  sbReadLineToString_wire c hc ⟨Reader.new c cs delims failOnErr, false, 0, 0, [], none⟩ d hp rest rfl rfl
+    ⟨rfl, rfl, hne⟩ hflat hutf
+
+-- non-vacuity: "é\n" is valid UTF-8 and a plain line; a lone 0xc3 is not valid UTF-8
+example : validUtf8 [0xc3, 0xa9, 10] = true ∧ validUtf8 [0xc3] = false ∧
+    Plain consts [.flush] false (.data [0xc3, 0xa9, 10]) := by decide +kernel
 
 end GixModel.Props.C29
